@@ -290,6 +290,9 @@ def battery(ctx, name, impl, thr, per_module):
         c2 = checker.Ctx('C14', 'quick', ctx.seed)
         c2.impl = impl; c2.canon = getattr(mod, 'canon_impl', None); c2.matcher = getattr(mod, 'matcher', None)
         bad, io, mo = checker.diff_cases(c2, cs, timeout=1500)
+        # mpn_mul_fft_main also prints the (depth, w) it chose: the model derives them from the table configured in /repo, the
+        # variant from its own table (any valid table is safe: C01_fft_params_safe + C14_shipped_tables_valid): compare the product only
+        bad = [(i, a, b) for (i, a, b) in bad if not (cs[i][0].startswith('mpn_mul_fft_main') and str(a).split()[-4:] == str(b).split()[-4:] and len(str(a).split()) == len(str(b).split()))]
         n += len(cs)
         for (i, a, b) in bad[:2]:
             bad_all.append((cs[i][0], a, b, modname))
